@@ -125,13 +125,21 @@ def map_history(seed, k, nops):
             else:
                 f = rng.getrandbits(24) & ~(1 << 16)
             if op == "decode":
-                e = command.from_frame(frame.ForwardFrame(24, f), dev_inst_map=m)
+                try:
+                    e = command.from_frame(frame.ForwardFrame(24, f), dev_inst_map=m)
+                except Exception:   # noqa: decoding never raises (C01); recorded as a result no spec value equals
+                    evs.append({"op": "decode", "f": f, "res": [-1, -1, -1, -1, -1, -1, -1]})
+                    break
                 evs.append({"op": "decode", "f": f, "res": describe(e)})
             else:
-                amb = command.from_frame(frame.ForwardFrame(24, f))
-                if type(amb).__name__ != "AmbiguousInstanceType":
-                    continue
-                r = amb.retry_decode(m)
+                try:
+                    amb = command.from_frame(frame.ForwardFrame(24, f))
+                    if type(amb).__name__ != "AmbiguousInstanceType":
+                        continue
+                    r = amb.retry_decode(m)
+                except Exception:   # noqa
+                    evs.append({"op": "retry", "f": f, "still": 0, "res": [-1, -1, -1, -1, -1, -1, -1]})
+                    break
                 if r is None:
                     evs.append({"op": "retry", "f": f, "still": 1, "res": [0, 0, 0, 0, 0, 0, 0]})
                 else:
